@@ -24,6 +24,9 @@ fn capture_configs() -> Vec<(&'static str, Vec<&'static str>)> {
         ("large+fraction", vec!["c = 1e21", "d = 0.1"]),
         ("negzero+long", vec!["c = -0", "d = 123456789.123"]),
         ("functions", vec!["c = q => q", "d = [n => n + 1, abs]"]),
+        // outer variables named like the function's own parameters (they must never be substituted
+        // for the parameters, whatever the body re-assigns)
+        ("outer-named-like-parameters", vec!["x = \"outer-x\"", "y = [\"outer-y\"]", "c = 1", "d = [2]"]),
     ]
 }
 
@@ -161,6 +164,37 @@ fn collision_kinds() -> Vec<Kind> {
                 T::Do(
                     vec![T::Assign("d".into(), Box::new(v.remove(0)))],
                     Box::new(T::Call(Box::new(T::Lam(vec![], Box::new(T::List(vec![T::id("c"), T::id("d")])))), vec![])),
+                )
+            },
+        },
+        // a do-block as a sub-expression that re-assigns an already bound name (a parameter, a captured
+        // name, a local of the enclosing block), with that name used again after the block
+        Kind {
+            name: "do-subexpr-rebind-param-then-use",
+            slots: vec![SlotKind::Expr],
+            is_expr: true,
+            class: "collision",
+            build: |mut v| T::List(vec![T::Do(vec![T::Assign("x".into(), Box::new(T::List(vec![T::id("x"), v.remove(0)])))], Box::new(T::id("x"))), T::id("x")]),
+        },
+        Kind {
+            name: "do-subexpr-rebind-captured-then-use",
+            slots: vec![SlotKind::Expr],
+            is_expr: true,
+            class: "collision",
+            build: |mut v| T::List(vec![T::Do(vec![T::Assign("c".into(), Box::new(T::List(vec![T::id("c"), v.remove(0)])))], Box::new(T::id("c"))), T::id("c"), T::id("x")]),
+        },
+        Kind {
+            name: "nested-do-rebind-local-then-use",
+            slots: vec![SlotKind::Expr],
+            is_expr: true,
+            class: "collision",
+            build: |mut v| {
+                T::Do(
+                    vec![
+                        T::Assign("t".into(), Box::new(T::id("x"))),
+                        T::Assign("u".into(), Box::new(T::Do(vec![T::Assign("t".into(), Box::new(T::List(vec![T::id("t"), v.remove(0)])))], Box::new(T::id("t"))))),
+                    ],
+                    Box::new(T::List(vec![T::id("t"), T::id("u")])),
                 )
             },
         },
